@@ -10,6 +10,7 @@ import gen_cube as G
 
 ID = "C18"
 LEAN_MODULES = ["CatiiProps.C18"]
+USES_TRANSLATOR = ['missing_rule']   # Gen/MissingGen.lean: the output_is_missing expressions of every reduce (tools/translate_missing.py)
 USES_MODEL = True
 RULE = ("array dimensions as C03 (1..3 dims, extents <=3, N<=14) plus a wide stream (1-2 dims whose extent / product of extents "
         "straddles 2^8, thorough: 2^16, N<=400) and ill-conditioned facts (offset 1.7e9 with spread < 10; constant 0.1 cells); facts (N,) / (N,K<=3) with any missing pattern in both "
